@@ -140,15 +140,25 @@ func HarnessC02GroupBy() {
 }
 
 // HarnessC08Reuse executes one Query value several times, on one index (symbolic data) and
-// in between on a second index whose grouped columns hold different values (concrete data),
-// and compares each result with the reference (= what a freshly constructed equal query
-// returns, by C02). The caller-visible fields of the Query must stay as given.
+// in between on a second index whose grouped columns hold different values (concrete data;
+// either with other numbers of distinct values per column or with the same numbers), and
+// compares each result with the reference (= what a freshly constructed equal query
+// returns, by C02). The caller-visible fields of the Query must stay as given: the group-by
+// list element by element, the expression tree node by node (operand slices with repeated
+// operands included) and in its textual form.
 func HarnessC08Reuse() {
 	d1 := verifNewDataN("c08a.updog", []string{"a", "b", "r"}, [][]string{{"a1", "a0"}, {"b0"}, {"r0"}}, 64)
 	d1.build()
-	d2 := &verifData{path: verifTempPath("c08b.updog"), n: 6, cols: []string{"a", "b", "r"},
-		vals: [][]string{{"a7"}, {"b8", "b7"}, {"r0"}},
-		sets: [][]uint64{{0x0f}, {0x05, 0x32}, {0x3e}}}
+	var d2 *verifData
+	if verifBool("same-value-counts") {
+		d2 = &verifData{path: verifTempPath("c08b.updog"), n: 6, cols: []string{"a", "b", "r"},
+			vals: [][]string{{"a7", "a6"}, {"b8"}, {"r0"}},
+			sets: [][]uint64{{0x05, 0x32}, {0x0f}, {0x3e}}}
+	} else {
+		d2 = &verifData{path: verifTempPath("c08b.updog"), n: 6, cols: []string{"a", "b", "r"},
+			vals: [][]string{{"a7"}, {"b8", "b7"}, {"r0"}},
+			sets: [][]uint64{{0x0f}, {0x05, 0x32}, {0x3e}}}
+	}
 	d2.build()
 	alphabet := []string{"a", "b"}
 	var list []string
@@ -157,7 +167,32 @@ func HarnessC08Reuse() {
 		list = append(list, alphabet[verifChoice("col", len(alphabet))])
 	}
 	given := append([]string(nil), list...)
-	e := &ExprEqual{Column: "r", Value: "r0"}
+	x := &ExprEqual{Column: "r", Value: "r0"}
+	y := &ExprEqual{Column: "a", Value: "a0"} // no such value in the second index
+	var e Expression = x
+	var operands []Expression // the operand slice of the root, if it has one
+	shape := verifChoice("shape", 3)
+	switch shape {
+	case 1:
+		o := &ExprOr{Exprs: []Expression{x, x, y}}
+		e, operands = o, o.Exprs
+	case 2:
+		a := &ExprAnd{Exprs: []Expression{x, x, y}}
+		e, operands = a, a.Exprs
+	}
+	givenOperands := append([]Expression(nil), operands...)
+	givenText := e.String()
+	rowsOf := func(d *verifData) uint64 {
+		rx, _ := d.set("r", "r0")
+		ry, _ := d.set("a", "a0")
+		switch shape {
+		case 1:
+			return rx | ry
+		case 2:
+			return rx & ry
+		}
+		return rx
+	}
 	q := &Query{Expr: e, GroupBy: list}
 	// a third index lacks column b (and r): executing the query there fails, possibly after
 	// some group-by columns were already resolved
@@ -166,8 +201,8 @@ func HarnessC08Reuse() {
 	idx1 := d1.open(verifBool("preload"), nil)
 	idx2 := d2.open(false, nil)
 	idx3 := d3.open(false, nil)
-	r1, _ := d1.set("r", "r0")
-	r2, _ := d2.set("r", "r0")
+	r1 := rowsOf(d1)
+	r2 := rowsOf(d2)
 	for _, which := range []int{1, 1, 2, 3, 1, 2} {
 		var res *Result
 		var err error
@@ -179,22 +214,38 @@ func HarnessC08Reuse() {
 		default:
 			res, err = idx3.Execute(q)
 			verifAssert(err != nil && res == nil, "C08: a query on an index lacking its columns must fail")
-			continue
 		}
-		verifAssert(err == nil, "C08: repeated execution returned an error")
-		if err != nil {
-			return
+		if which != 3 {
+			verifAssert(err == nil, "C08: repeated execution returned an error")
+			if err != nil {
+				return
+			}
+			if which == 1 {
+				verifCheckGroups(d1, given, r1, res, "C08: repeated execution differs from a fresh query")
+			} else {
+				verifCheckGroups(d2, given, r2, res, "C08: repeated execution differs from a fresh query")
+			}
 		}
-		if which == 1 {
-			verifCheckGroups(d1, given, r1, res, "C08: repeated execution differs from a fresh query")
-		} else {
-			verifCheckGroups(d2, given, r2, res, "C08: repeated execution differs from a fresh query")
-		}
-		verifAssert(q.Expr == Expression(e), "C08: Execute changed Query.Expr")
+		verifAssert(q.Expr == e, "C08: Execute changed Query.Expr")
 		verifAssert(len(q.GroupBy) == len(given), "C08: Execute changed the length of Query.GroupBy")
 		for i := range given {
 			verifAssert(q.GroupBy[i] == given[i], "C08: Execute changed Query.GroupBy")
 		}
+		var now []Expression
+		switch o := q.Expr.(type) {
+		case *ExprOr:
+			now = o.Exprs
+		case *ExprAnd:
+			now = o.Exprs
+		}
+		verifAssert(len(now) == len(givenOperands), "C08: Execute changed the operands of the query's expression")
+		for i := range givenOperands {
+			if i < len(now) {
+				verifAssert(now[i] == givenOperands[i], "C08: Execute changed the operands of the query's expression")
+			}
+		}
+		verifAssert(x.Column == "r" && x.Value == "r0" && y.Column == "a" && y.Value == "a0", "C08: Execute changed a comparison of the query's expression")
+		verifAssert(q.Expr.String() == givenText, "C08: Execute changed the query's expression (textual form differs)")
 	}
 	idx1.Close()
 	idx2.Close()
